@@ -195,7 +195,7 @@ def run(ck):
 
     # ---- 1. the tree against its specification
     cases = []
-    for _ in range(4000 if T else 500):
+    for _ in range(12000 if T else 500):
         t = gen_table(rng)
         cases.append([t, gen_inputs(rng, t, 14)])
     ck.stream("ptree", cases, "C19_ptree_run", "C19_ptree", "C19_ptree_ok",
@@ -203,8 +203,8 @@ def run(ck):
 
     # ---- 2. the sniffing Conn under arbitrary matcher / service read sequences
     cases = []
-    for i in range(12000 if T else 1500):
-        data = gen_stream(rng, 200 if not T else 3000)
+    for i in range(30000 if T else 1500):
+        data = gen_stream(rng, 200 if not T else 700)
         sc = gen_script(rng, data, hostile=rng.random() < 0.6)
         cases.append([sc, gen_sessions(rng), gen_svc(rng, len(data), len(sc))])
     ck.stream("sniffer", cases, "C19_sniff_run", "C19_sniff", "C19_sniff_ok",
@@ -213,8 +213,8 @@ def run(ck):
 
     # ---- 3. Listener.serve with the production matchers (and random tables) on a scripted conn
     cases = []
-    for i in range(30000 if T else 2200):
-        data = gen_stream(rng, 100 if not T else 1500)
+    for i in range(50000 if T else 2200):
+        data = gen_stream(rng, 100 if not T else 500)
         nch = 3 if T else 2
         for _ in range(nch):
             sc = gen_script(rng, data, hostile=rng.random() < 0.35)
@@ -229,11 +229,16 @@ def run(ck):
             data = data[:rng.randint(0, len(data))]
         sc = gen_script(rng, data, hostile=rng.random() < 0.3)
         cases.append([tabs, sc, gen_svc(rng, len(data), len(sc))])
-    if T:   # payloads to 1 MiB through the scripted conn
-        for n in (65536, 300000, 1 << 20):
+    if T:   # payloads to 64 KiB through the scripted conn
+        for n in (20000, 40000, 65536):   # larger ones (to 1 MiB) go through the loopback stream: the extracted model recurses on the list
             data = (gen_first_line(rng) + "\r\n").encode() + bytes(rng.randrange(256) for _ in range(n))
-            sc = [[c, 0] for c in chunk(rng, data, True)]
-            cases.append([0, sc, [rng.choice([4096, 1000, 65536])] * (len(sc) + n // 1000 + 20)])
+            # model evaluation is O(stream) per read (unary nat, inductive lists): coarse segments, large reads
+            sc = [[c, 0] for c in chunk(rng, data[:40], True)]
+            i = 40
+            while i < len(data):
+                k = rng.choice([4096, 16384, 65536])
+                sc.append([data[i:i + k], 0]); i += k
+            cases.append([0, sc, [7] + [65536] * (len(sc) + 3)])
     ck.stream("serve", cases, "C19_serve_run", "C19_serve", "C19_serve_ok",
               nontrivial=lambda c: len(c[1]) >= 2 and len(stream_of(c[1])) >= 8,
               sig=lambda c, e, o: "serve-" + ("misroute" if (e or "").split(" ")[0] != (o or "").split(" ")[0] else "replay"),
@@ -241,7 +246,7 @@ def run(ck):
 
     # ---- 4. real loopback connections through listener.New / Serve with stub services
     cases = []
-    for i in range(400 if T else 44):
+    for i in range(800 if T else 44):
         k = rng.random()
         line = gen_first_line(rng) if rng.random() < 0.75 else gen_bad_line(rng)
         head = (line + "CSeq: 1\r\n\r\n").encode("latin-1") if rng.random() < 0.8 else line.encode("latin-1")
